@@ -180,6 +180,18 @@ class SymInterp:
                 return cand
         return None
 
+    def _getattr(self, obj, name, *default):
+        """getattr on a stand-in: its own attributes first, then the methods its source class defines (bound to the stand-in)"""
+        try:
+            return getattr(obj, name)
+        except AttributeError:
+            target = self.resolver(obj, name) if isinstance(obj, Sym) or getattr(obj, "_cls", None) else None
+            if target is not None:
+                return lambda *a, **k: self.call_function(target, [obj] + list(a), k)
+            if default:
+                return default[0]
+            raise
+
     def new_env(self, fi, /, **names):
         """environment for interpreting statements of fi one by one: module-level names of fi's module (helpers, constants) behind the given local names"""
         env = Scope(_Fallback(self.module_scope(fi.rel), self.builtins, self), ())
@@ -625,7 +637,7 @@ class SymInterp:
             if n in self.builtins:
                 return self.builtins[n](*args, **kwargs)
             std = {"len": len, "list": list, "tuple": tuple, "enumerate": lambda x: list(enumerate(x)), "range": lambda *a: (list(range(*a)) if len(range(*a)) <= 10 ** 6 else range(*a)), "zip": lambda *a: list(zip(*a)),
-                   "str": lambda x: x if isinstance(x, str) else repr(x), "isinstance": lambda *a: False, "min": min, "max": max, "bool": bool, "int": int, "abs": abs, "slice": slice, "getattr": getattr, "setattr": setattr, "hasattr": hasattr, "dict": dict, "reversed": lambda x: list(reversed(x)), "set": set, "sorted": sorted, "map": lambda f_, *xs: [f_(*a_) for a_ in zip(*xs)], "any": any, "all": all, "sum": sum,
+                   "str": lambda x: x if isinstance(x, str) else repr(x), "isinstance": lambda *a: False, "min": min, "max": max, "bool": bool, "int": int, "abs": abs, "slice": slice, "getattr": self._getattr, "setattr": setattr, "hasattr": hasattr, "dict": dict, "reversed": lambda x: list(reversed(x)), "set": set, "sorted": sorted, "map": lambda f_, *xs: [f_(*a_) for a_ in zip(*xs)], "any": any, "all": all, "sum": sum,
                    "frozenset": frozenset, "round": round, "divmod": divmod, "type": type}
             if n in std:
                 if kwargs and n not in ("sorted", "min", "max", "dict", "enumerate", "int", "round", "sum"):
@@ -665,6 +677,12 @@ class SymInterp:
                     return self.call_function(target, args, kwargs)
                 return self.call_function(target, [recv] + args, kwargs)
             raise AnalysisError(f"method {f.attr} on {recv!r} cannot be resolved symbolically")
+        if isinstance(f, (ast.Call, ast.Subscript, ast.IfExp, ast.Lambda)):
+            # the callee is itself computed: getattr(obj, name)(...), table[key](...), (f if c else g)(...)
+            target = self.ev(f, env)
+            if callable(target):
+                return target(*args, **kwargs)
+            raise AnalysisError(f"call `{unparse(e)[:50]}`: the computed callee {target!r} is not callable")
         raise AnalysisError(f"call `{unparse(e)[:50]}` outside the symbolic fragment")
 
 
